@@ -79,3 +79,37 @@ GROUPS = {
              "cvector_size", "cvector_clear", "cvector_erase", "cvector_check_capacity"],
     "SORTSL": ["stdex_sort", "make_nterm_rule_slices"],
 }
+
+
+# ---------------------------------------------------------------- dependence order (ctpgsa/deporder.py)
+P_ = "ctpg::parser::"
+SA_ = P_ + "state_analyzer::"
+B_ = R + "dfa_builder::"
+DEP = {
+    # lexer construction and matching
+    "dfa_match": (R + "dfa_match", None), "merge": (B_ + "merge", None),
+    "star": (B_ + "star", None), "plus": (B_ + "plus", None), "cat": (B_ + "cat", None),
+    "alt": (B_ + "alt", None), "rep": (B_ + "rep", None), "mark_end_states": (B_ + "mark_end_states", None),
+    "expr_match": (R + "expr::match", 3),
+    "add_term_data_to_dfa": (R + "add_term_data_to_dfa", None),
+    "get_current_term": (P_ + "get_current_term", None), "skip_whitespace": (P_ + "skip_whitespace", None),
+    "sp_update": ("ctpg::source_point::update", None),
+    # driver
+    "context_parse": (P_ + "context_parse", 4), "reduce": (P_ + "reduce", None), "pop_stacks": (P_ + "pop_stacks", None),
+    "consume_term": (P_ + "consume_term", None),
+    "cvector_erase_dep": (CV + "erase", None),
+    # table construction
+    "transitions": (SA_ + "transitions", None), "closure": (SA_ + "closure", None),
+    "add_situation": (SA_ + "add_situation", None), "analyze_states": (SA_ + "analyze_states", None),
+    "analyze_nterm_sets": (SA_ + "analyze_nterm_sets", None), "analyze_rule": (P_ + "analyze_rule", None), "make_nterm_rule_slices_dep": (P_ + "make_nterm_rule_slices", None),
+    "solve_conflict": (SA_ + "solve_conflict", None),
+}
+DEP_GROUPS = {
+    "LEX": ["dfa_match", "merge", "star", "plus", "cat", "alt", "rep",
+            "mark_end_states", "expr_match", "add_term_data_to_dfa", "get_current_term",
+            "skip_whitespace", "sp_update"],
+    "DRV": ["context_parse", "reduce", "pop_stacks", "consume_term",
+            "get_current_term", "cvector_erase_dep"],
+    "TAB": ["transitions", "closure", "add_situation", "analyze_states", "analyze_nterm_sets", "analyze_rule",
+            "make_nterm_rule_slices_dep", "solve_conflict"],
+}
